@@ -56,13 +56,17 @@ def run_values(ctx, n, empty_eo=False, seed=None):
     return obs, ""
 
 
-def run_hostile(ctx, n, deep=0, cases_file=None, seed=None, timeout="10s"):
+def run_hostile(ctx, n, deep=0, cases_file=None, seed=None, timeout="10s", memkb=None):
     h, log = ctx.go_build("codecharness")
     if h is None:
         return None, log
     cmd = [h, "-seed", str(seed if seed is not None else ctx.seed), "-n", str(n), "-timeout", timeout]
+    if memkb:
+        cmd += ["-memkb", str(memkb)]
     if deep:
         cmd += ["-deep", str(deep)]
+        if ctx.thorough():
+            cmd += ["-deep-all"]
     if cases_file:
         cmd += ["-cases", cases_file]
     rc, out = vf.sh(cmd + ["hostile"], timeout=3000, env=vf.GOENV)
@@ -129,14 +133,14 @@ def model_evaluable(o):
 
 def correspond_values(ctx, obs, name="ValCases"):
     lines = [value_line(o) for o in obs]
-    okc, idx, clog = ctx.eval_cases(IMPORTS, VALUE_CTYPE, lines, VALUE_AGREE, shard=250, name=name)
+    okc, idx, clog = ctx.eval_cases(IMPORTS, VALUE_CTYPE, lines, VALUE_AGREE, shard=80, name=name)
     return okc, idx, clog
 
 
 def correspond_hostile(ctx, obs, name="HostCases"):
     good = [o for o in obs if model_evaluable(o)]
     lines = [host_line(o) for o in good]
-    okc, idx, clog = ctx.eval_cases(IMPORTS, HOST_CTYPE, lines, HOST_AGREE, shard=250, name=name)
+    okc, idx, clog = ctx.eval_cases(IMPORTS, HOST_CTYPE, lines, HOST_AGREE, shard=80, name=name)
     return okc, [good[i] for i in idx], clog, len(good)
 
 
